@@ -200,6 +200,7 @@ def enumeration_on_implementations(kind, seed, n_games):
 
 def enumeration_handmade():
     def run():
+        import logging
         import omega.symbolic.temporal as trl
         fails = list()
         n = 0
@@ -210,45 +211,78 @@ def enumeration_handmade():
             # implementation initial conditions that read the environment's initial value
             (dict(x=(0, 3)), dict(y=(0, 3)), "x' = x", "y' = y", 'x >= 1', r'(y = 3) \/ ((x = 1) /\ (y = 0))'),
             (dict(x='bool'), dict(y=(0, 2)), 'TRUE', r"y' = y", 'TRUE', r'(y = 2) \/ (x /\ (y = 1))'),
+            # an environment without variables whose action is a state predicate (closed system)
+            (dict(), dict(c=(0, 3), b='bool'), r'(c < 2) \/ b', r"(c' = c + 1 \/ c' = 0) /\ (b' <=> b)", 'TRUE', r'(c = 0) /\ ~ b'),
+            (dict(), dict(y=(0, 2)), 'y # 2', "y' # y", 'TRUE', 'y = 0'),
         ]
+        elog = logging.getLogger('omega.games.enumeration')
         for de, ds, ea, sa, ei, si in cases:
             for moore in (True, False):
                 for qinit in (r'\A \A', r'\E \E', r'\A \E', r'\E \A'):
-                    n += 1
-                    aut = trl.Automaton()
-                    aut.declare_variables(**de)
-                    aut.declare_variables(**ds)
-                    aut.varlist = dict(env=list(de), sys=list(ds), impl=list(ds))
-                    aut.moore, aut.plus_one, aut.qinit = moore, True, qinit
-                    aut.prime_varlists()
-                    aut.action['env'], aut.action['impl'] = ea, sa
-                    aut.action['sys'] = sa
-                    aut.init['env'], aut.init['impl'] = ei, si
-                    if qinit == r'\E \E':
-                        aut.init['impl'] = f'({si}) /\\ ({ei})'
-                    try:
-                        g = ge.action_to_steps(aut, 'env', 'impl', qinit=qinit)
-                    except AssertionError as e:
-                        fails.append(dict(name='enumeration runs', error=repr(e)[:200], qinit=qinit))
-                        continue
-                    for x in check_graph(aut, g, qinit)[:2]:
-                        x.update(qinit=qinit, moore=moore, case=sa)
-                        fails.append(x)
-                    # the SAME automaton object with another implementation put in
-                    # its place: the graph must be that of the implementation
-                    # present at call time (no state kept between calls)
-                    n += 1
-                    frame = ' /\\ '.join(
-                        (f"({v}' <=> {v})" if ds[v] == 'bool' else f"({v}' = {v})") for v in ds)
-                    aut.action['impl'] = aut.action['sys'] = frame
-                    aut.init['impl'] = f'~ ({si})' if qinit != r'\E \E' else f'(~ ({si})) /\\ ({ei})'
-                    try:
-                        g2 = ge.action_to_steps(aut, 'env', 'impl', qinit=qinit)
-                    except AssertionError as e:
-                        continue      # e.g. an empty set of initial nodes is refused
-                    for x in check_graph(aut, g2, qinit)[:2]:
-                        x.update(qinit=qinit, moore=moore, case=f'second implementation on the same automaton object: action {frame}, init ~ ({si})')
-                        x['name'] = x['name'] + ' (second enumeration of the same automaton after its implementation was replaced)'
-                        fails.append(x)
+                    for variant in ('plain', 'debug-logging', 'role-keys-swapped'):
+                        if variant != 'plain' and moore:
+                            continue
+                        n += 1
+                        aut = trl.Automaton()
+                        if de:
+                            aut.declare_variables(**de)
+                        aut.declare_variables(**ds)
+                        ek, sk = ('env', 'impl') if variant != 'role-keys-swapped' else ('sys', 'env')
+                        # role-keys-swapped: the inputs are stored under the key 'sys', the component under 'env'
+                        aut.varlist = {ek: list(de), sk: list(ds)}
+                        if variant != 'role-keys-swapped':
+                            aut.varlist['sys'] = list(ds)
+                        aut.moore, aut.plus_one, aut.qinit = moore, True, qinit
+                        aut.prime_varlists()
+                        aut.action[ek], aut.action[sk] = ea, sa
+                        aut.init[ek], aut.init[sk] = ei, si
+                        if variant != 'role-keys-swapped':
+                            aut.action['sys'] = sa
+                        if qinit == r'\E \E':
+                            aut.init[sk] = f'({si}) /\\ ({ei})'
+                        old_level = elog.level
+                        old_disable = logging.root.manager.disable
+                        if variant == 'debug-logging':
+                            logging.disable(logging.NOTSET)
+                            elog.setLevel(logging.DEBUG)
+                            elog.propagate = False
+                            if not elog.handlers:
+                                elog.addHandler(logging.NullHandler())
+                        try:
+                            g = ge.action_to_steps(aut, ek, sk, qinit=qinit)
+                        except AssertionError as e:
+                            fails.append(dict(name='enumeration runs', error=repr(e)[:200], qinit=qinit, variant=variant))
+                            continue
+                        except Exception as e:
+                            fails.append(dict(name='enumeration runs (whatever the keys the two players are stored under, and whatever the logging level)',
+                                              error=repr(e)[:200], qinit=qinit, variant=variant))
+                            continue
+                        finally:
+                            elog.setLevel(old_level)
+                            elog.propagate = True
+                            logging.disable(old_disable)
+                        for x in check_graph(aut, g, qinit, env=ek, sys=sk)[:2]:
+                            x.update(qinit=qinit, moore=moore, case=sa, variant=variant)
+                            if variant != 'plain':
+                                x['name'] = x['name'] + f' ({variant})'
+                            fails.append(x)
+                        if variant != 'plain':
+                            continue
+                        # the SAME automaton object with another implementation put in
+                        # its place: the graph must be that of the implementation
+                        # present at call time (no state kept between calls)
+                        n += 1
+                        frame = ' /\\ '.join(
+                            (f"({v}' <=> {v})" if ds[v] == 'bool' else f"({v}' = {v})") for v in ds)
+                        aut.action['impl'] = aut.action['sys'] = frame
+                        aut.init['impl'] = f'~ ({si})' if qinit != r'\E \E' else f'(~ ({si})) /\\ ({ei})'
+                        try:
+                            g2 = ge.action_to_steps(aut, 'env', 'impl', qinit=qinit)
+                        except AssertionError as e:
+                            continue      # e.g. an empty set of initial nodes is refused
+                        for x in check_graph(aut, g2, qinit)[:2]:
+                            x.update(qinit=qinit, moore=moore, case=f'second implementation on the same automaton object: action {frame}, init ~ ({si})')
+                            x['name'] = x['name'] + ' (second enumeration of the same automaton after its implementation was replaced)'
+                            fails.append(x)
         return dict(records=[], stats=dict(), functions={}, bounded=dict(evaluations=n, failures=fails[:6]))
     return run
